@@ -6,6 +6,7 @@ import (
 	"go/token"
 	"go/types"
 	"sort"
+	"strings"
 
 	"golang.org/x/tools/go/ssa"
 )
@@ -178,6 +179,8 @@ func rulesC16(c *Ctx) {
 	skipsetRule(c, "C16.skipset", tt)
 	crfoldRule(c, "C16.crfold")
 	commentsRule(c, "C16.comments")
+	afterWSRule(c, tt)
+	regexGapRule(c)
 	n := probeBalance(c, "C16.noleak")
 	c.Floor("C16.noleak", n, 120)
 
@@ -331,4 +334,138 @@ func rulesC16(c *Ctx) {
 		c.Check(len(rets) == 0 && len(nf) == 1 && nf[closedS], "C16.separator", "(*Parser).ParseQuery: flag cleared after a statement", pq.Pos(), fmt.Sprintf("after a statement the next one needs a separator (returns=%d, next flag=%v, want %s)", len(rets), nf, closedS))
 	}
 	_ = token.EQL
+}
+
+// afterWSRule: once the parser has consumed a whitespace token explicitly,
+// what follows may still be a comment (or a comment and more whitespace).
+func afterWSRule(c *Ctx, tt *tokenTable) {
+	p := c.P
+	c.Rule("C16.afterws", "on the branch where a raw Parser.Scan returned WS, the next token is not taken by another raw Scan (outside the skipping loop itself): a comment can follow the whitespace, and only ScanIgnoreWhitespace skips it")
+	rawScan := p.SSAFunc(p.Method("Parser", "Scan"))
+	skip := p.SSAFunc(p.Method("Parser", "ScanIgnoreWhitespace"))
+	ws, okWS := tt.ByName["WS"]
+	if rawScan == nil || skip == nil || !okWS {
+		c.Unk("C16.afterws", "anchors", 0, "Parser.Scan/ScanIgnoreWhitespace/WS not found")
+		return
+	}
+	n := 0
+	for _, fn := range p.SrcFuncs() {
+		if fn == skip {
+			continue
+		}
+		for _, f := range append([]*ssa.Function{fn}, fn.AnonFuncs...) {
+			for _, b := range f.Blocks {
+				ifi, ok := b.Instrs[len(b.Instrs)-1].(*ssa.If)
+				if !ok {
+					continue
+				}
+				bo, ok := ifi.Cond.(*ssa.BinOp)
+				if !ok || (bo.Op != token.EQL && bo.Op != token.NEQ) {
+					continue
+				}
+				k, ok := bo.Y.(*ssa.Const)
+				if !ok || k.Value == nil || !types.Identical(k.Type(), tt.Type) {
+					continue
+				}
+				if v, _ := constant.Int64Val(k.Value); v != ws {
+					continue
+				}
+				ex, ok := bo.X.(*ssa.Extract)
+				if !ok {
+					continue
+				}
+				call, ok := ex.Tuple.(*ssa.Call)
+				if !ok || call.Call.StaticCallee() != rawScan {
+					continue
+				}
+				n++
+				wsSucc := b.Succs[0]
+				if bo.Op == token.NEQ {
+					wsSucc = b.Succs[1]
+				}
+				key := fmt.Sprintf("%s: after a raw scan returned WS (#%d)", fn.Name(), n)
+				bad := token.NoPos
+				seen := map[*ssa.BasicBlock]bool{}
+				var walk func(bb *ssa.BasicBlock)
+				walk = func(bb *ssa.BasicBlock) {
+					if seen[bb] || bad != token.NoPos {
+						return
+					}
+					seen[bb] = true
+					for _, in := range bb.Instrs {
+						if cl, ok := in.(*ssa.Call); ok {
+							cal := cl.Call.StaticCallee()
+							if cal == rawScan {
+								bad = cl.Pos()
+								return
+							}
+							if cal != nil && cal.Signature.Recv() != nil && strings.HasSuffix(p.TypeStr(cal.Signature.Recv().Type()), "Parser") {
+								return // another parser routine takes over
+							}
+						}
+					}
+					for _, s := range bb.Succs {
+						walk(s)
+					}
+				}
+				walk(wsSucc)
+				if bad != token.NoPos {
+					c.Bad("C16.afterws", key, bad, "the token after the whitespace is taken by a raw Scan: `WS COMMENT token` is rejected here though comments may stand wherever whitespace may")
+				} else {
+					c.OK("C16.afterws", key, ifi.Cond.Pos(), "next token through ScanIgnoreWhitespace or another parser routine")
+				}
+			}
+		}
+	}
+	c.Floor("C16.afterws", n, 2)
+}
+
+// regexGapRule: the whitespace in front of a regex literal is whatever the
+// lexer calls whitespace.
+func regexGapRule(c *Ctx) {
+	p := c.P
+	c.Rule("C16.regexgap", "parseRegex, evaluated by constant propagation with the peeked rune bound to each candidate, consumes the whitespace token in front of a regex literal exactly when the lexer's isWhitespace holds for that rune (space, tab and line feed alike)")
+	f := p.SSAFunc(p.Method("Parser", "parseRegex"))
+	isWS := p.Func("isWhitespace")
+	if f == nil || isWS == nil {
+		c.Unk("C16.regexgap", "(*Parser).parseRegex", 0, "anchor not found")
+		return
+	}
+	var consume *ssa.Call
+	for _, b := range f.Blocks {
+		for _, in := range b.Instrs {
+			if call, ok := in.(*ssa.Call); ok && call.Call.StaticCallee() != nil && call.Call.StaticCallee().Name() == "consumeWhitespace" {
+				consume = call
+			}
+		}
+	}
+	if consume == nil {
+		c.Unk("C16.regexgap", "(*Parser).parseRegex: consumeWhitespace", f.Pos(), "no call found")
+		return
+	}
+	n := 0
+	for _, ch := range []rune{' ', '\t', '\n', '/', 'a', '\'', 0} {
+		want, ok := p.newSCCP().evalConstBool(isWS, cConst(constant.MakeInt64(int64(ch))))
+		key := fmt.Sprintf("(*Parser).parseRegex: gap starting with %q", ch)
+		if !ok {
+			c.Unk("C16.regexgap", key, f.Pos(), "isWhitespace is not a constant function of the rune")
+			continue
+		}
+		s := p.newSCCP()
+		s.hook = func(call *ssa.Call, args []cval) ([]cval, bool) {
+			if cal := call.Call.StaticCallee(); cal != nil && cal.Name() == "peekRune" {
+				return []cval{cConst(constant.MakeInt64(int64(ch)))}, true
+			}
+			return nil, false
+		}
+		r := s.run(f, nil, 0)
+		got := r.execB[consume.Block().Index]
+		n++
+		if got != want {
+			c.Bad("C16.regexgap", key, consume.Pos(), fmt.Sprintf("whitespace consumed=%v but the lexer's isWhitespace=%v: a regex after this kind of gap is not recognised (or a non-gap is swallowed)", got, want))
+		} else {
+			c.OK("C16.regexgap", key, consume.Pos(), fmt.Sprintf("consumed=%v", got))
+		}
+	}
+	c.Floor("C16.regexgap", n, 5)
 }
